@@ -47,6 +47,16 @@ Note(ds) == LET f == FailedOf(ds)
 
 Has(e, f) == f \in DOMAIN e
 
+\* UnmarshalText on the package's persistent receiver: r = the specification's expectation,
+\* want = the model receiver after the action, got = the real receiver after the call
+UTextDemands(e, r, want, got) ==
+  <<
+    <<"C18.nopanic",     ~e.panic>>,
+    <<"C17.state_ok",    (r.k = "ok") => e.ok>>,
+    <<"C17.state_fail",  (r.k = "fail") => ~e.ok>>,
+    <<"C17.state_recv",  (r.k \in {"ok", "fail"}) => got = want>>
+  >>
+
 \* arrays arrive as sequences; records of the empty JSON array [] arrive as <<>>
 Finish == /\ l = Len(Trace) + 1
           /\ JsonSerialize(IOEnv.RESULT_FILE, [n |-> l - 1, nbad |-> nbad, bads |-> bads])
